@@ -91,7 +91,7 @@ func TestCheck(t *testing.T) {
 	run := vlib.Start(t, "C14", "exploration")
 	defer run.Finish()
 	run.Rule("case = one generated schema (0-4 reflect.StructOf objects with scalar/pointer/slice/enum/union/text-marshaler/object fields and key tags, a pool of predeclared named objects, unions, enums (one of them with alias names: two names for one value), named scalars, text marshalers, keyed and recursive objects; 4-9 root field funcs and 0-5 per object minted by reflect.MakeFunc over every signature form ctx?/source(value|pointer)?/args?/selectionSet? -> result?/error?, options NonNullable, ListEntryNonNullable, Expensive, NumParallelInvocationsFunc, Paginated, BatchFieldFunc, BatchFieldFuncWithFallback; StructOf arg structs incl. named input objects, enums, lists, optional/pointer args) " +
-		"x N queries generated from the advertised graph (depth<=4, aliases, merged duplicates, inline and shared named fragments, union member subsets, __typename at any level, args from advertised arg types, query and mutation roots, fragments on the union type itself, the same composite field under two aliases with equal arguments and different sub-selections - every second time for Expensive fields); every query with such a pair and every fourth other accepted query is executed a second time inside a reactive.Rerunner with batch.WithBatching (as the HTTP handler does; only there the reactive result cache of Expensive fields is used) and checked by the same conformance oracle; each query is evaluated undamaged and with exactly one damage out of {unknown field, sub-selection on scalar/enum/__typename, missing sub-selection on object/union, unknown field inside an applicable fragment (incl. inside `... on U` under a U-typed field), one named fragment spread at two places whose second object type gives the same field name another kind or object type (thunder applies a fragment to any object it is spread in; both visiting orders), one well-formed named fragment spread at two places of one type with an ordinary damage next to one spread}. " +
+		"x N queries generated from the advertised graph (depth<=4, aliases, merged duplicates, inline and shared named fragments, union member subsets, __typename at any level, args from advertised arg types, query and mutation roots, fragments on the union type itself, the same composite field under two aliases with equal arguments and different sub-selections - every second time for Expensive fields); every query with such a pair and every fourth other accepted query is executed a second time inside a reactive.Rerunner with batch.WithBatching (as the HTTP handler does; only there the reactive result cache of Expensive fields is used) and checked by the same conformance oracle; each query is evaluated undamaged and with exactly one damage out of {unknown field, sub-selection on scalar/enum/__typename, missing sub-selection on object/union, unknown field inside an applicable fragment (incl. inside `... on U` under a U-typed field), each of these four also (2 in 5) with @skip/@include on the damaged node or on an inline fragment / named spread wrapped around it - excluding and including, literal, variable and defaulted-variable conditions: validation must reject whatever the directive says, one named fragment spread at two places whose second object type gives the same field name another kind or object type (thunder applies a fragment to any object it is spread in; both visiting orders), one well-formed named fragment spread at two places of one type with an ordinary damage next to one spread}. " +
 		"Resolver results are legal Go values of the declared types (valid enum members, one-hot unions, nil pointers only under nullable types, nil/empty slices, nil entries in pointer lists, missing batch entries only without NonNullable). " +
 		"Non-trivial = the advertised schema has >= 3 of {union, enum, list of objects, nullable object, batch/expensive field, args}; distinct = hash(schema shape, query text, damage).")
 	run.Assume("the reserved \"__key\" marker the executor adds to keyed objects (consumed by package diff) is not counted as a selected field")
@@ -241,13 +241,16 @@ func rootOf(built *graphql.Schema, adv *advSchema, doc *qDoc) (graphql.Type, str
 }
 
 // prepare runs Parse and PrepareQuery; stage tells which one rejected.
-func prepare(root graphql.Type, text string) (q *graphql.Query, stage string, err error) {
+func prepare(root graphql.Type, text string, vars map[string]interface{}) (q *graphql.Query, stage string, err error) {
 	defer func() {
 		if p := recover(); p != nil {
 			stage, err = "panic", fmt.Errorf("panic: %v", p)
 		}
 	}()
-	q, err = graphql.Parse(text, map[string]interface{}{})
+	if vars == nil {
+		vars = map[string]interface{}{}
+	}
+	q, err = graphql.Parse(text, vars)
 	if err != nil {
 		return nil, "parse", err
 	}
@@ -397,7 +400,7 @@ func selectsUnion(doc *qDoc, names map[string]bool) bool {
 func evalValid(run *vlib.Run, l *local, i, qi int, s *schemaInst, adv *advSchema, built *graphql.Schema, doc *qDoc, qf map[string]bool, text string) bool {
 	root, rootName := rootOf(built, adv, doc)
 	l.add("valid_sent", 1)
-	q, stage, err := prepare(root, text)
+	q, stage, err := prepare(root, text, nil)
 	if err != nil {
 		l.add("valid_rejected:"+stage, 1)
 		switch stage {
@@ -446,7 +449,7 @@ func evalValid(run *vlib.Run, l *local, i, qi int, s *schemaInst, adv *advSchema
 				return true
 			}
 			ntext := render(adv, nd, nil)
-			q2, stage2, err2 := prepare(root, ntext)
+			q2, stage2, err2 := prepare(root, ntext, nil)
 			if err2 == nil {
 				val2, st2, xerr2 := execute(s, root, q2)
 				if xerr2 == nil && len(st2.panics) == 0 {
@@ -525,7 +528,7 @@ func evalValid(run *vlib.Run, l *local, i, qi int, s *schemaInst, adv *advSchema
 	if usedDoc != doc || !(qf["same_field_two_aliases"] || qi%4 == 0) {
 		return true
 	}
-	q2, _, err := prepare(root, text)
+	q2, _, err := prepare(root, text, nil)
 	if err != nil {
 		run.Broken(fmt.Sprintf("case %d query %d: accepted query rejected when prepared again: %v", i, qi, err))
 		return true
@@ -585,7 +588,10 @@ func evalDamaged(run *vlib.Run, l *local, i, qi int, s *schemaInst, adv *advSche
 	if dmg.note != "" {
 		l.add("damaged_sent:"+name+":"+dmg.note, 1)
 	}
-	_, stage, err := prepare(root, dtext)
+	if dmg.note2 != "" {
+		l.add("damaged_sent:"+dmg.note2, 1)
+	}
+	_, stage, err := prepare(root, dtext, dmg.vars)
 	if err != nil && stage != "panic" {
 		l.add("damaged_rejected:"+name+":"+stage, 1)
 		return
